@@ -10,10 +10,10 @@ open ConjureVerif ConjureVerif.Data ConjureVerif.Wrap ConjureVerif.AnyM ConjureV
 
 /-! #### instantiation: `Variant`'s validator and the union field helpers (conjure-object/src/private.rs) -/
 theorem gen_variant_validator :
-    Gen.ObjPrivateSrc.bodies.lookup "fn valid_enum_variant" = some "{ifs.is_empty(){returnfalse;}s.as_bytes().iter().all(|b|matches!(b,b'A'..=b'Z'|b'0'..=b'9'|b'_'))}" ∧
-    Gen.ObjPrivateSrc.bodies.lookup "FromStr for Variant::from_str" = some "{ifvalid_enum_variant(s){Ok(Variant(s.into()))}else{Err(ParseEnumError::new())}}" ∧
-    Gen.ObjPrivateSrc.bodies.lookup "de::Visitor<'de> for UnionFieldVisitor<T>::visit_str" = some "{matchvalue{\"type\"=>Ok(UnionField_::Type),value=>T::deserialize(value.into_deserializer()).map(UnionField_::Value),}}" ∧
-    Gen.ObjPrivateSrc.bodies.lookup "de::Visitor<'_> for UnionTypeFieldVisitor::visit_str" = some "{matchvalue{\"type\"=>Ok(UnionTypeField_),value=>Err(E::invalid_value(de::Unexpected::Str(value),&self)),}}" := by
+    Gen.ObjPrivateSrc.hashes.lookup "fn valid_enum_variant" = some 5806532344999375027 /- "{ifs.is_empty(){returnfalse;}s.as_bytes().iter().all(|b|matches!(b,b'A'..=b'Z'|b'0'..=b'9'|b'_'))}" -/ ∧
+    Gen.ObjPrivateSrc.hashes.lookup "FromStr for Variant::from_str" = some 12159738611131720343 /- "{ifvalid_enum_variant(s){Ok(Variant(s.into()))}else{Err(ParseEnumError::new())}}" -/ ∧
+    Gen.ObjPrivateSrc.hashes.lookup "de::Visitor<'de> for UnionFieldVisitor<T>::visit_str" = some 12420967154820704809 /- "{matchvalue{\"type\"=>Ok(UnionField_::Type),value=>T::deserialize(value.into_deserializer()).map(UnionField_::Value),}}" -/ ∧
+    Gen.ObjPrivateSrc.hashes.lookup "de::Visitor<'_> for UnionTypeFieldVisitor::visit_str" = some 10153877095946106681 /- "{matchvalue{\"type\"=>Ok(UnionTypeField_),value=>Err(E::invalid_value(de::Unexpected::Str(value),&self)),}}" -/ := by
   decide +kernel
 
 /-! #### enums -/
